@@ -13,8 +13,9 @@ Conventions
 * positions are Go `int`s (`Int`), bin numbers `uint32` (`Nat`), counters `uint64` (`Nat`; the
   wrap-around after 2^64 increments is not modelled).
 * the bin-number functions (`BinFor`, `OverlappingBinsFor`, `reg2bin`, `reg2bins`) and the merge
-  strategies are *parameters* of the index functions; `Hts.Model.Index.Local` has executable mirrors of
-  them for the driver (the properties C16 and C17 own their theory).
+  strategies are *parameters* of the index functions.  The driver passes `Hts.Model.Coord.*` (C16) for
+  the bins and the executable mirrors `Hts.Model.Index.Local.*` of the strategies, which work on the
+  integer offsets used here (C17's `Hts.Model.Merge` has its own (file, block) offsets).
 -/
 namespace Hts.Model.Index
 
@@ -224,48 +225,8 @@ def mergeChunks (s : List Chunk → List Chunk) (i : Index) : Index :=
   { i with refs := i.refs.map (fun r =>
       { r with bins := r.bins.map (fun b => { b with chunks := s (sortChunks b.chunks) }) }) }
 
-/-! ### executable mirrors of the bin functions and merge strategies (for the driver) -/
+/-! ### executable mirrors of the merge strategies on integer offsets (for the driver) -/
 namespace Local
-
-def u32 (x : Int) : Nat := (x % 4294967296).toNat
-
-/-- `internal.BinFor` (uint32 arithmetic as coded) -/
-def binFor (beg stop : Int) : Nat :=
-  let e := stop - 1
-  if beg >>> 14 = e >>> 14 then u32 (4681 + (beg >>> 14))
-  else if beg >>> 17 = e >>> 17 then u32 (585 + (beg >>> 17))
-  else if beg >>> 20 = e >>> 20 then u32 (73 + (beg >>> 20))
-  else if beg >>> 23 = e >>> 23 then u32 (9 + (beg >>> 23))
-  else if beg >>> 26 = e >>> 26 then u32 (1 + (beg >>> 26))
-  else 0
-
-def rangeIncl (lo hi : Nat) : List Nat := List.range' lo (hi + 1 - lo)
-
-/-- `internal.OverlappingBinsFor` -/
-def overlappingBinsFor (beg stop : Int) : List Nat :=
-  let e := stop - 1
-  0 :: [(1, 26), (9, 23), (73, 20), (585, 17), (4681, 14)].flatMap (fun (p : Nat × Nat) =>
-    rangeIncl (u32 ((p.1 : Int) + (beg >>> p.2))) (u32 ((p.1 : Int) + (e >>> p.2))))
-
-/-- `csi.reg2bin` with the repair of DESIGN §6 #2: the running offset `t` goes down by `8^(level-1)` -/
-def reg2binLoop (beg e : Int) : (level : Nat) → (s : Nat) → (t : Nat) → Nat
-  | 0, _, _ => 0
-  | l + 1, s, t =>
-    if beg >>> s = e >>> s then u32 ((t : Int) + (beg >>> s))
-    else reg2binLoop beg e l (s + 3) (u32 ((t : Int) - (8 ^ l : Nat)))
-
-def reg2bin (beg stop : Int) (minShift depth : Nat) : Nat :=
-  reg2binLoop beg (stop - 1) depth minShift ((8 ^ depth - 1) / 7)
-
-/-- `csi.reg2bins` -/
-def reg2binsLoop (beg e : Int) (depth : Nat) : (n : Nat) → (level : Nat) → (s : Nat) → (t : Nat) → List Nat
-  | 0, _, _, _ => []
-  | n + 1, level, s, t =>
-    rangeIncl (u32 ((t : Int) + (beg >>> s))) (u32 ((t : Int) + (e >>> s)))
-      ++ reg2binsLoop beg e depth n (level + 1) (s - 3) (u32 ((t : Int) + (8 ^ level : Nat)))
-
-def reg2bins (beg stop : Int) (minShift depth : Nat) : List Nat :=
-  reg2binsLoop beg (stop - 1) depth (depth + 1) 0 (minShift + 3 * depth) 0
 
 /-- `File` part of an offset as the code sees it after `makeOffset` -/
 def fileOf (o : Offset) : Int := (o % 18446744073709551616) / 65536
@@ -316,9 +277,9 @@ structure BaiRec where
   chunk : Chunk
 deriving DecidableEq, Repr, Inhabited
 
-/-- `sam.Record.Bin` with `binOf = internal.BinFor` -/
-def recBin (binOf : Int → Int → Nat) (r : BaiRec) : Nat :=
-  if r.unmapped && r.mateUnmapped then 4680 else binOf r.pos r.stop
+/-- `sam.Record.Bin` = `BinFor(Pos, End())` with `binOf = internal.BinFor` (the flags play no role
+since the repair of DESIGN §6 #24) -/
+def recBin (binOf : Int → Int → Nat) (r : BaiRec) : Nat := binOf r.pos r.stop
 
 def toRec (binOf : Int → Int → Nat) (r : BaiRec) : Rec :=
   { rid := if r.hasRef then r.rid else -1, start := r.pos, stop := r.stop, bin := recBin binOf r,
